@@ -199,7 +199,8 @@ func runC02(c *Ctx) {
 	constructs := []string{"max(@0, @1, @2)", "[@0, @1, @2].size()", "{a: @0, b: @1, c: @2}.b", "(@0 + @1) * @2", "(if @0 > 0 then @1 else @2)",
 		"(switch @0 case 1 : @1 default @2)", "(try @0 + @1 catch @2)", "[1, 2, 3][@0 - @0] + @1 + @2", "\"s\".len() + @0 + (0 - @1) + @2",
 		"((p, q, r) -> p + q + r)(@0, @1, @2)", "[1, 2].map(e -> e + @0).sum() + @1 + @2", "{f: (p, q) -> p + q}.f(@0, @1) + @2", "[@0, @1][0] + [1, @2].size()",
-		"abs(@0) + sqr(@1) + min(@2, 5)", "[1, 2].mapReduce(@0, (s, e) -> s + e + @1) + @2", "{k: 1}.put(\"z\", @0).z + @1 + @2"}
+		"abs(@0) + sqr(@1) + min(@2, 5)", "(if (@0 > 5) | (@1 > 5) | (@2 > 5) then 1 else 0)", "(if (@0 > 0) & (@1 > 0) & (@2 > 0) then 1 else 0)",
+		"(if ((@0 > 5) | (@1 > 0)) & (@2 > 0) then 1 else 0)", "[1, 2].accept(e -> (e > @0) | (e < @1) | (e = @2)).size()", "(if !((@0 > 5) | !(@1 > 5)) then @2 else 0)", "[1, 2].mapReduce(@0, (s, e) -> s + e + @1) + @2", "{k: 1}.put(\"z\", @0).z + @1 + @2"}
 	wrappers := []string{"%s", "(x -> %s)(0)", "let f = x -> %s; f(0) + f(1)", "let c = (x -> %s); [c(0), c(0)].size()", "[0, 1].map(x -> %s).sum()", "func g(x) %s; g(0) + g(1)"}
 	purity := 0
 	for _, cons := range constructs {
